@@ -24,6 +24,9 @@ type CrashDB struct {
 	limit  int // -1 = unlimited
 	// Log receives a short description of every write when non-nil.
 	Log *[]string
+	// OnWrite, when non-nil, is called before every write (outside the wrapper's own lock), e.g. to
+	// sample what the node reports between two commits of one event.
+	OnWrite func()
 }
 
 // NewCrashDB wraps db with no limit.
@@ -46,6 +49,9 @@ func (c *CrashDB) Crashed() bool {
 }
 
 func (c *CrashDB) admit(what string) bool {
+	if f := c.OnWrite; f != nil {
+		f()
+	}
 	c.mu.Lock()
 	defer c.mu.Unlock()
 	c.writes++
